@@ -119,6 +119,65 @@ def corpus_job(job):
         return ("corpus", job), {"harness": "%s: %s" % (type(e).__name__, e)}, []
 
 
+TABLE_ALIAS = {"msp430x": "msp430", "65832": "65816", "8041": "8048", "mips32": "mips", "n64_rsp": "mips", "pic32": "mips", "ps2_ee": "mips",
+               "pic24": "dspic", "riscv64": "riscv", "ps2_ee_vu0": "ps2_ee_vu", "ps2_ee_vu1": "ps2_ee_vu", "tms1100": "tms1000"}
+MNEM = re.compile(r'\{\s*"([A-Za-z][A-Za-z0-9_.]*)"')
+
+
+def table_mnemonics(cpu):
+    import os
+    from engine import build
+    p = os.path.join(build.REPO, "table", TABLE_ALIAS.get(cpu, cpu) + ".cpp")
+    if not os.path.exists(p):
+        return []
+    out = []
+    for m in MNEM.findall(open(p, errors="replace").read()):
+        if m not in out:
+            out.append(m)
+    return out
+
+
+def s6_job(job):
+    """S6: every mnemonic of the CPU's opcode table x every operand shape seen for that CPU (corpus and decoder renderings)"""
+    try:
+        cpu, ci, addr, quick = job
+        mn = table_mnemonics(cpu)
+        shapes, seen = [], set()
+        src = [re.sub(r"^\w+:\s*", "", l) for l in corpus.lines(cpu)]
+        for fill in ("ff", "00"):
+            src += [t for t, _, _ in C07.job_texts(("rec_zero", ci, addr if addr == 0x1000 else 0x1000, fill, 0, True))]
+        for t in src:
+            t = t.split(" -- ")[0].strip()
+            t = re.sub(r"\s*\([^()]*=[^()]*\)\s*$", "", t)
+            parts = t.split(None, 1)
+            ops = parts[1] if len(parts) > 1 else ""
+            k = NUM.sub("N", ops)
+            if k not in seen:
+                seen.add(k)
+                shapes.append(ops)
+        shapes = shapes[:60 if quick else 400]
+        texts = []
+        for m in mn:
+            for o in shapes:
+                texts.append((m + " " + o).strip())
+        out = rt.roundtrip(ci, addr, texts)
+        viol, acc, fatal = [], 0, 0
+        for t, o in zip(texts, out):
+            if o is None:
+                continue
+            if "fatal" in o:
+                fatal += 1
+                continue
+            if o["status"] != 0 or not o["B"]:
+                continue
+            acc += 1
+            for kind, detail in judge(o):
+                viol.append((kind, t, None, detail))
+        return ("s6", job), {"texts": len(texts), "accepted": acc, "fatal": fatal, "mnemonics": len(mn), "shapes": len(shapes)}, viol
+    except Exception as e:
+        return ("s6", job), {"harness": "%s: %s" % (type(e).__name__, e)}, []
+
+
 def ref_job(job):
     """S4: reference encodings"""
     try:
@@ -146,7 +205,7 @@ def ref_job(job):
 
 
 def _dispatch(j):
-    return {"dec": decoder_job, "corpus": corpus_job, "ref": ref_job}[j[0]](j[1])
+    return {"dec": decoder_job, "corpus": corpus_job, "ref": ref_job, "s6": s6_job}[j[0]](j[1])
 
 
 def run(ctx):
@@ -164,6 +223,8 @@ def run(ctx):
         if cpu in byname:
             for addr in ((0x1000,) if q else (0x1000, 0, 0xfff8)):
                 jobs.append(("corpus", (cpu, byname[cpu]["index"], addr, q)))
+    for c in cl:
+        jobs.append(("s6", (c["name"], c["index"], 0x1000, q)))
     for which, mod in (("msp430", msp430enc), ("riscv", rv32i)):
         for addr in ((0x1000,) if q else (0x1000, 0x8000)):
             forms = list(mod.forms(addr, q))
@@ -173,18 +234,18 @@ def run(ctx):
     if len(res) < len(jobs):
         ctx.capped = True
     fam = {"decoder-derived": {"texts": 0, "accepted": 0}, "corpus+boundary-values": {"texts": 0, "accepted": 0},
-           "reference-encodings": {"texts": 0, "accepted": 0, "rejected": 0}}
+           "reference-encodings": {"texts": 0, "accepted": 0, "rejected": 0}, "mnemonic-x-operand-shape": {"texts": 0, "accepted": 0}}
     kinds = {}
     samples = []
     for (typ, job), st, viol in res:
         if "harness" in st:
             raise RuntimeError(st["harness"])
-        f = fam[{"dec": "decoder-derived", "corpus": "corpus+boundary-values", "ref": "reference-encodings"}[typ]]
+        f = fam[{"dec": "decoder-derived", "corpus": "corpus+boundary-values", "ref": "reference-encodings", "s6": "mnemonic-x-operand-shape"}[typ]]
         for k in f:
             f[k] += st.get(k, 0)
         if typ == "dec":
             name, addr = cl[job[1]]["name"], job[2]
-        elif typ == "corpus":
+        elif typ in ("corpus", "s6"):
             name, addr = job[0], job[2]
         else:
             name, addr = job[0], job[2]
